@@ -33,6 +33,8 @@ def checkChainOverlap (ksr : Request) (last : Response) (pol : RequestPolicy) : 
   | none, _ => err .index
   | _, none => err .index
   | some previous, some first =>
+    if first.inception > previous.expiration then violation .chainOverlap   -- a gap is never acceptable
+    else
     let overlap := previous.expiration - first.inception
     if overlap < ksr.zskPolicy.minValidityOverlap then violation .chainOverlap
     else if overlap > ksr.zskPolicy.maxValidityOverlap then violation .chainOverlap
